@@ -20,7 +20,7 @@ EXPLANATION = (
     "C17.7 the slot -> entry index array is initialised as the identity over the ring size the kernel reports (not the requested size), so each submitted entry is consumed exactly once, and every ring word (head, tail, flags, dropped/overflow, mask, entries) is located through its own ring's offset table under its own name; "
     "C17.6 type-level witnesses: the ring cursors (submission_queue / completion_queue) cannot be reached from outside rusl; "
     "C17.2 also: the submission shift is decided by IORING_SETUP_SQE128 alone and the completion shift by IORING_SETUP_CQE32 alone. "
-    "C17.2 also: the free-slot bound is the submission ring's own size. NOT decided: the kernel's side of the protocol, interleavings with a concurrent kernel beyond these ordering obligations, that submitted entries are consumed.")
+    "C17.2 also: the free-slot bound is the submission ring's own size. C17.2 also: the private submission tail moves only on a way that hands a slot out. NOT decided: the kernel's side of the protocol, interleavings with a concurrent kernel beyond these ordering obligations, that submitted entries are consumed.")
 ASSUMPTIONS = ["io_uring ABI: head/tail are free-running u32 indices, masked by ring_mask on use", "without SQPOLL the kernel reads the submission tail during io_uring_enter (Relaxed suffices)"]
 
 Q = "rusl::platform::compat::io_uring::"
